@@ -5134,6 +5134,14 @@ static size_t ZSTD_loadZstdDictionary(ZSTD_compressedBlockState_t* bs,
         FORWARD_IF_ERROR(ZSTD_loadDictionaryContent(
             ms, NULL, ws, params, dictPtr, dictContentSize, dtlm, tfp), "");
     }
+    /* A dictionary too large for the index range is only loaded by its end (see ZSTD_loadDictionaryContent()).
+     * The repcodes were validated against the whole content : they must also fit what the window references */
+    {   size_t const loadedSize = (size_t)(ms->window.nextSrc - ms->window.base) - ms->window.dictLimit;
+        U32 u;
+        for (u=0; u<ZSTD_REP_NUM; u++) {
+            RETURN_ERROR_IF(bs->rep[u] > loadedSize, dictionary_corrupted, "repcode reaches into the part of the dictionary that was not loaded");
+        }
+    }
     return dictID;
 }
 
